@@ -42,6 +42,7 @@ func init() {
 	add(&Property{
 		ID: "C02", Title: "csync locks: grantable waiters are granted, cancelled waiters leave no trace",
 		Sels: []Sel{
+			{Run: "Gstale", Scope: []string{"csync"}},
 			{Run: "Gcontra", Scope: []string{"csync"}},
 			{Run: "R2", Scope: []string{"csync", "broadcast"}, Rules: []string{"R2a", "R2b", "R2c", "R2d"}, Prefixes: []string{"csync."}},
 			{Run: "Gcsync", Rules: []string{"R12"}, Contains: []string{"writeWaiting", "grant(nreaders++)", "return-failure", "release-called", "ungrant("}},
@@ -57,6 +58,7 @@ func init() {
 	add(&Property{
 		ID: "C03", Title: "broadcast: a waiter never misses a broadcast issued after it sampled the state",
 		Sels: []Sel{
+			{Run: "Gstale", Scope: []string{"broadcast"}},
 			{Run: "Gcontra", Scope: []string{"broadcast"}},
 			{Run: "R2", Rules: []string{"R2e"}},
 			{Run: "R2", Rules: []string{"R2a", "R2c"}, Prefixes: []string{"broadcast."}},
@@ -73,6 +75,7 @@ func init() {
 	add(&Property{
 		ID: "C04", Title: "routine: at most one instance of the managed function executes at a time",
 		Sels: []Sel{
+			{Run: "Gstale", Scope: []string{"routine"}},
 			{Run: "Gcontra", Scope: []string{"routine"}},
 			{Run: "R3", Scope: []string{"routine"}, Prefixes: []string{"routine."}},
 			{Run: "Groutine", Rules: []string{"R12"}, Contains: []string{"status-writes"}},
@@ -89,8 +92,9 @@ func init() {
 	add(&Property{
 		ID: "C05", Title: "routine: superseded instances are cancelled; survivor has latest context+state",
 		Sels: []Sel{
+			{Run: "Gstale", Scope: []string{"routine"}},
 			{Run: "Gcontra", Scope: []string{"routine"}},
-			{Run: "Groutine", Rules: []string{"R4", "R12"}, Contains: []string{"cancel", "derived-context", "current-context", "status-reset", "go-execute", "store-state-before-rebuild", "stored-state-reaches-routine", "closure-captures-copy", "status-writes"}},
+			{Run: "Groutine", Rules: []string{"R4", "R12"}, Contains: []string{"cancel", "derived-context", "current-context", "status-reset", "go-execute", "store-state-before-rebuild", "stored-state-reaches-routine", "closure-captures-copy", "status-writes", "hands-routine", "stores-context"}},
 			{Run: "Groutine", Rules: []string{"R5b"}},
 			{Run: "R1", Scope: []string{"routine"}, Rules: []string{"R1a"}, Prefixes: []string{"routine."}},
 			{Run: "R2", Scope: []string{"routine", "broadcast"}, Rules: []string{"R2d"}, Prefixes: []string{"routine."}},
@@ -104,6 +108,7 @@ func init() {
 	add(&Property{
 		ID: "C06", Title: "keyed: the key set equals what Set/Remove/Sync/refs asked for, delays included",
 		Sels: []Sel{
+			{Run: "Gstale", Scope: []string{"keyed"}},
 			{Run: "Gcontra", Scope: []string{"keyed"}},
 			{Run: "Gmapinit", Scope: []string{"keyed"}},
 			{Run: "Gkeyed", Rules: []string{"R6b", "R16"}},
@@ -120,11 +125,13 @@ func init() {
 	add(&Property{
 		ID: "C07", Title: "keyed: per key one live routine, cancelled on removal, retried while wanted",
 		Sels: []Sel{
+			{Run: "Gstale", Scope: []string{"keyed"}},
 			{Run: "Gcontra", Scope: []string{"keyed"}},
 			{Run: "Gmapinit", Scope: []string{"keyed"}},
 			{Run: "R3", Scope: []string{"keyed"}, Prefixes: []string{"keyed."}},
 			{Run: "Gkeyed", Rules: []string{"R4", "R5a", "R5c"}},
-			{Run: "Gkeyed", Rules: []string{"R5b", "R12"}, Contains: []string{"restart", "go-execute", "start/", "status-writes", "exit-callbacks", "retry-disabled", "backoff-constructed"}},
+			{Run: "Gkeyed", Rules: []string{"R5b", "R12"}, Contains: []string{"restart", "go-execute", "start/", "status-writes", "exit-callbacks", "retry-disabled", "backoff-constructed", "stores-context"}},
+			{Run: "Gkeyed", Rules: []string{"R5b"}, Topics: []string{"removal"}},
 			{Run: "R1", Scope: []string{"keyed"}, Rules: []string{"R1a", "R11"}},
 		},
 		Floors:      map[string]int{"R3a": 2, "R3b": 6, "R3c": 1, "R3d": 1, "R4": 3, "R5c": 3, "R5b": 2},
@@ -136,10 +143,11 @@ func init() {
 	add(&Property{
 		ID: "C08", Title: "refcount: each resolved value is released exactly once, never exposed afterwards",
 		Sels: []Sel{
+			{Run: "Gstale", Scope: []string{"refcount"}},
 			{Run: "Gcontra", Scope: []string{"refcount"}},
 			{Run: "Gmapinit", Scope: []string{"refcount"}},
 			{Run: "Grefcount", Rules: []string{"R7", "R16"}},
-			{Run: "Grefcount", Rules: []string{"R12"}, Contains: []string{"SetContext", "released#"}, Topics: []string{"last-ref"}},
+			{Run: "Grefcount", Rules: []string{"R12"}, Contains: []string{"SetContext", "released#", "handed-back"}, Topics: []string{"last-ref"}},
 			{Run: "R1", Scope: []string{"refcount"}, Rules: []string{"R1a"}, Prefixes: []string{"refcount.RefCount"}},
 			{Run: "R1", Scope: []string{"refcount"}, Rules: []string{"R11a", "R11c"}},
 		},
@@ -152,10 +160,11 @@ func init() {
 	add(&Property{
 		ID: "C09", Title: "refcount: referenced+context means resolved, by one resolver at a time",
 		Sels: []Sel{
+			{Run: "Gstale", Scope: []string{"refcount"}},
 			{Run: "Gcontra", Scope: []string{"refcount"}},
 			{Run: "R3", Scope: []string{"refcount"}, Prefixes: []string{"refcount."}},
 			{Run: "Grefcount", Rules: []string{"R6a"}},
-			{Run: "Grefcount", Rules: []string{"R12", "R7"}, Contains: []string{"released", "AddRef", "begins-with-shutdown", "generation-bump", "store-result", "error-container"}},
+			{Run: "Grefcount", Rules: []string{"R12", "R7"}, Contains: []string{"released", "AddRef", "begins-with-shutdown", "generation-bump", "store-result", "error-container", "invalidation/"}},
 			{Run: "Grefcount", Rules: []string{"R4"}},
 			{Run: "R1", Scope: []string{"refcount", "ccontainer", "promise", "broadcast"}, Rules: []string{"R11"}},
 			{Run: "R1", Scope: []string{"refcount"}, Rules: []string{"R1a"}, Prefixes: []string{"refcount.RefCount"}},
@@ -169,9 +178,10 @@ func init() {
 	add(&Property{
 		ID: "C10", Title: "refcount: consumers get the current value, are cancelled when it is invalidated",
 		Sels: []Sel{
+			{Run: "Gstale", Scope: []string{"refcount"}},
 			{Run: "Gcontra", Scope: []string{"refcount"}},
 			{Run: "Grefcount", Rules: []string{"R12", "R13e"}, Contains: []string{"Access", "Wait", "Resolve/", "ResolveWithReleased", "released", "AddRefPromise"}},
-			{Run: "Grefcount", Rules: []string{"R7"}, Contains: []string{"begins-with-shutdown", "generation-bump", "store-result"}},
+			{Run: "Grefcount", Rules: []string{"R7"}, Contains: []string{"begins-with-shutdown", "generation-bump", "store-result", "invalidation/"}},
 			{Run: "R2", Scope: []string{"refcount", "broadcast"}, Rules: []string{"R2a", "R2b", "R2c", "R2d"}, Prefixes: []string{"refcount."}},
 			{Run: "R2", Scope: []string{"promise", "broadcast"}, Rules: []string{"R2a", "R2b", "R2c"}, Prefixes: []string{"promise.(*PromiseContainer)"}},
 			{Run: "R17", Scope: []string{"refcount"}, Rules: []string{"R17", "R2f"}, Prefixes: []string{"refcount.(*RefCount).Access"}},
@@ -187,6 +197,7 @@ func init() {
 	add(&Property{
 		ID: "C11", Title: "promise: resolved at most once, every awaiter sees that result and returns",
 		Sels: []Sel{
+			{Run: "Gstale", Scope: []string{"promise"}},
 			{Run: "Gcontra", Scope: []string{"promise"}},
 			{Run: "Gpromise", Rules: []string{"R9", "R6a"}},
 			{Run: "R2", Scope: []string{"promise", "broadcast"}, Rules: []string{"R2a", "R2b", "R2c", "R2d"}, Prefixes: []string{"promise."}},
@@ -215,6 +226,8 @@ func init() {
 	add(&Property{
 		ID: "C13", Title: "no data races inside the library under any concurrent use of its concurrent APIs",
 		Sels: []Sel{
+			{Run: "Groutine", Rules: []string{"R12"}, Contains: []string{"backoff-constructed"}},
+			{Run: "Gkeyed", Rules: []string{"R12"}, Contains: []string{"backoff-constructed"}},
 			{Run: "Gcontra", Scope: ConcurrentPkgs},
 			{Run: "Gstale", Scope: ConcurrentPkgs},
 			{Run: "R1", Scope: ConcurrentPkgs, Rules: []string{"R1", "R11a", "R11c"}},
@@ -231,6 +244,7 @@ func init() {
 	add(&Property{
 		ID: "C14", Title: "routine: exit status, restart rules and backoff follow the documented machine",
 		Sels: []Sel{
+			{Run: "Gstale", Scope: []string{"routine"}},
 			{Run: "Gcontra", Scope: []string{"routine", "backoff"}},
 			{Run: "Groutine", Rules: []string{"R12", "R5a", "R5b", "R5c"}},
 			{Run: "Gbackoff", Rules: []string{"R12"}},
@@ -247,6 +261,8 @@ func init() {
 	add(&Property{
 		ID: "C15", Title: "ccontainer: atomic value cell whose waiters return exactly when satisfied",
 		Sels: []Sel{
+			{Run: "R2", Scope: []string{"broadcast"}, Rules: []string{"R2e"}, Contains: []string{"unlock-deferred"}},
+			{Run: "Gstale", Scope: []string{"ccontainer"}},
 			{Run: "Gcontra", Scope: []string{"ccontainer"}},
 			{Run: "Gccontainer", Rules: []string{"R12"}},
 			{Run: "R2", Scope: []string{"ccontainer", "broadcast"}, Rules: []string{"R2a", "R2b", "R2c", "R2d"}, Prefixes: []string{"ccontainer."}},
@@ -262,6 +278,7 @@ func init() {
 	add(&Property{
 		ID: "C16", Title: "Once/MemoizeFunc: one call in flight, success kept forever, failure retried",
 		Sels: []Sel{
+			{Run: "Gstale", Scope: []string{"promise", "memo"}},
 			{Run: "Gcontra", Scope: []string{"promise", "memo"}},
 			{Run: "Gpromise", Rules: []string{"R8"}},
 			{Run: "R1", Scope: []string{"promise", "memo"}, Rules: []string{"R1a", "R1b", "R1d"}, Prefixes: []string{"promise.Once", "promise.(*Once)", "memo.", "promise.Promise."}},
@@ -277,6 +294,7 @@ func init() {
 	add(&Property{
 		ID: "C17", Title: "ccall: the result is nil only if every function returned nil",
 		Sels: []Sel{
+			{Run: "Gstale", Scope: []string{"ccall"}},
 			{Run: "Gcontra", Scope: []string{"ccall"}},
 			{Run: "Gccall"},
 			{Run: "R1", Scope: []string{"ccall"}, Rules: []string{"R1b"}},
@@ -292,6 +310,7 @@ func init() {
 	add(&Property{
 		ID: "C18", Title: "conc queue: bounded parallelism, every job exactly once, idle means done",
 		Sels: []Sel{
+			{Run: "Gstale", Scope: []string{"conc", "linkedlist"}},
 			{Run: "Gcontra", Scope: []string{"conc", "linkedlist"}},
 			{Run: "Gconc"},
 			{Run: "R2", Scope: []string{"conc", "broadcast"}, Rules: []string{"R2a", "R2b", "R2c", "R2d"}, Prefixes: []string{"conc."}},
@@ -317,6 +336,7 @@ func init() {
 	add(&Property{
 		ID: "C20", Title: "sequential helpers match their reference models on every operation sequence",
 		Sels: []Sel{
+			{Run: "Gstale", Scope: []string{"iocloser", "unique"}},
 			{Run: "Gcontra", Scope: []string{"iocloser", "ioproxy", "ioseek", "iosizer", "unique"}},
 			{Run: "Gcontra", Scope: []string{"padding", "commonprefix", "prng"}},
 			{Run: "Gio"},
